@@ -956,3 +956,229 @@ Proof.
   - apply send_shape in Hy. destruct Hy as (x & -> & A1 & A2 & A3 & A4).
     exists x. cbn in *. repeat split; auto. destruct A4 as [_ E]. exact E.
 Qed.
+
+End Window.
+
+(* ------------------------------------------------------------------ *)
+(* Part 5: the leader's invariant, its steps and its tick *)
+
+(* the leader has heard from [id] since the last check / has a heartbeat queued for it *)
+Definition act (L : raft) (id : N) : Prop :=
+  exists p, get_pr L id = Some p /\ recent_active p = true.
+Definition hbq (L : raft) (id : N) : Prop :=
+  exists x, In x (r_msgs L) /\ m_to x = id /\ m_type x = MsgHeartbeat.
+
+Section Inv.
+
+Variables (ids : list N) (l t hb et : N) (c : conf).
+Hypothesis Ht0 : t <> 0.
+Hypothesis Hl0 : l <> INVALID_ID.
+Hypothesis Hlids : ~ In l ids.
+Hypothesis Hhbet : hb < et.
+Hypothesis Hquorum : Quorum.has_quorum (incoming c) (outgoing c) (l :: ids) = true.
+
+(* [all]: every majority follower is flagged active;  otherwise: flagged or about to
+   be (heartbeat queued), or the next heartbeat comes early enough before the next
+   check-quorum boundary *)
+Definition LInv (all : bool) (L : raft) : Prop :=
+  r_state L = Leader /\ r_term L = t /\ r_id L = l /\ r_leader_id L = l /\
+  r_check_quorum L = true /\ r_lead_transferee L = None /\
+  r_heartbeat_timeout L = hb /\ r_election_timeout L = et /\
+  r_heartbeat_elapsed L < hb /\ r_election_elapsed L < et /\
+  t_conf (r_prs L) = c /\
+  (forall id, In id (l :: ids) -> get_pr L id <> None) /\
+  Forall (QL ids l t) (r_msgs L) /\
+  ((forall id, In id ids -> act L id \/ (all = false /\ hbq L id)) \/
+   hb + r_election_elapsed L < et + r_heartbeat_elapsed L).
+
+Lemma LF_act L L' id : LF ids L L' -> act L id -> act L' id.
+Proof. intros H A. eapply LF_activates; eassumption. Qed.
+
+Lemma LF_hbq L L' id : LF ids L L' -> hbq L id -> hbq L' id.
+Proof.
+  intros (_ & _ & (_ & K)) (x & Hx & A & B). destruct (K x Hx) as (x' & Hx' & A' & B').
+  exists x'. split; [exact Hx'|split; congruence].
+Qed.
+
+Lemma LInv_LF all L L' : LInv all L -> LF ids L L' ->
+  LInv all L' /\ r_heartbeat_elapsed L' = r_heartbeat_elapsed L.
+Proof.
+  intros (I1 & I2 & I3 & I4 & I5 & I6 & I7 & I8 & I9 & I10 & I11 & I12 & I13 & I14) HLF.
+  pose proof HLF as (K & (W1 & W2 & W3 & W4 & W5) & (Q & _)).
+  apply keeps_fields in K. destruct K as (K1 & K2 & K3 & K4 & K5).
+  apply cfg_fields in K5. destruct K5 as (C1 & C2 & C3 & C4 & C5).
+  split; [|exact W2].
+  unfold LInv. rewrite K1, K3, K4, C1, C3, C4, C5, W1, W2, W4.
+  repeat (split; [assumption|]). split; [lia|]. split; [assumption|].
+  split.
+  { intros id Hid. specialize (I12 id Hid). destruct (get_pr L id) as [p|] eqn:G; [|congruence].
+    destruct (W5 id p G) as (p' & G' & _). congruence. }
+  split; [rewrite I3, I2 in Q; apply Q, I13|].
+  destruct I14 as [A|A]; [left|right; lia].
+  intros id Hid. destruct (A id Hid) as [B|[B1 B2]]; [left; eapply LF_act; eassumption|].
+  right. split; [exact B1|eapply LF_hbq; eassumption].
+Qed.
+
+Lemma LInv_step all L m L' cc :
+  LInv all L -> okL ids t m -> step L m = Ok (L', cc) ->
+  LInv all L' /\ LF ids L L' /\
+  ((m_type m = MsgHeartbeatResponse \/ m_type m = MsgAppendResponse) -> m_term m = t ->
+   In (m_from m) ids -> act L' (m_from m)).
+Proof.
+  intros HI Hok H.
+  pose proof HI as (I1 & I2 & I3 & I4 & I5 & I6 & I7 & I8 & I9 & I10 & I11 & I12 & I13 & I14).
+  apply (leader_step_LF ids) in H; [|exact I1|exact I6|congruence|rewrite I2; exact Hok].
+  destruct H as [HLF Hact]. split; [eapply LInv_LF; eassumption|]. split; [exact HLF|].
+  intros Hty Hterm Hin. specialize (Hact Hty). rewrite I2 in Hact. specialize (Hact Hterm Ht0).
+  assert (G : get_pr L (m_from m) <> None) by (apply I12; right; exact Hin).
+  destruct (get_pr L (m_from m)) as [p|] eqn:E; [|congruence]. exact (Hact p E).
+Qed.
+
+Lemma LInv_steps : forall ms all L L',
+  LInv all L -> Forall (okL ids t) ms -> steps L ms = Ok L' ->
+  LInv all L' /\ LF ids L L' /\
+  (forall x, In x ms -> (m_type x = MsgHeartbeatResponse \/ m_type x = MsgAppendResponse) ->
+             m_term x = t -> In (m_from x) ids -> act L' (m_from x)).
+Proof.
+  induction ms as [|m rest IH]; intros all L L' HI Hok H; cbn [steps] in H.
+  - okinv H. split; [exact HI|]. split; [apply LF_refl|]. intros x [].
+  - inversion Hok as [|? ? Hm Hrest]; subst. ib H y Hy. destruct y as [L1 c1]. cbn [fst] in H.
+    destruct (LInv_step _ _ _ _ _ HI Hm Hy) as (I1 & F1 & A1).
+    destruct (IH _ _ _ I1 Hrest H) as (I2 & F2 & A2).
+    split; [exact I2|]. split; [eapply LF_trans; eassumption|].
+    intros x [<-|Hx] Hty Hterm Hin; [|apply A2; assumption].
+    eapply LF_act; [exact F2|]. apply A1; assumption.
+Qed.
+
+(* has_quorum is monotone in the set *)
+Lemma has_quorum_mono inc out S S' :
+  (forall x, Quorum.mem x S = true -> Quorum.mem x S' = true) ->
+  Quorum.has_quorum inc out S = true -> Quorum.has_quorum inc out S' = true.
+Proof.
+  intros Hsub H. apply QuorumProofs.has_quorum_spec in H. apply QuorumProofs.has_quorum_spec.
+  destruct H as [A B]. split.
+  - destruct A as [A|A]; [left; exact A|right].
+    eapply Nat.le_trans; [exact A|]. apply QuorumProofs.count_mono. intros v _. apply Hsub.
+  - destruct B as [B|B]; [left; exact B|right].
+    eapply Nat.le_trans; [exact B|]. apply QuorumProofs.count_mono. intros v _. apply Hsub.
+Qed.
+
+Lemma pget_In m id p : pget m id = Some p -> In (id, p) m.
+Proof.
+  induction m as [|[k q] rest IH]; cbn [pget]; [discriminate|].
+  destruct (k =? id) eqn:E; [|intros H; right; apply IH, H].
+  apply N.eqb_eq in E. intros H. okinv H. left. reflexivity.
+Qed.
+
+Lemma active_ids_mem L id :
+  (id = r_id L /\ get_pr L id <> None) \/ act L id ->
+  Quorum.mem id (active_ids (r_prs L) (r_id L)) = true.
+Proof.
+  intros H. apply QuorumProofs.mem_In. unfold active_ids. apply in_map_iff.
+  destruct H as [[-> G]|(p & G & A)].
+  - destruct (get_pr L (r_id L)) as [p|] eqn:E; [|congruence].
+    exists (r_id L, p). split; [reflexivity|]. apply filter_In. split; [apply pget_In; exact E|].
+    cbn. rewrite N.eqb_refl. reflexivity.
+  - exists (id, p). split; [reflexivity|]. apply filter_In. split; [apply pget_In; exact G|].
+    cbn. rewrite A. apply orb_true_r.
+Qed.
+
+Lemma all_act_quorum L :
+  LInv true L -> (forall id, In id ids -> act L id) ->
+  prs_has_quorum (r_prs L) (active_ids (r_prs L) (r_id L)) = true.
+Proof.
+  intros (I1 & I2 & I3 & I4 & I5 & I6 & I7 & I8 & I9 & I10 & I11 & I12 & I13 & I14) A.
+  unfold prs_has_quorum. rewrite I11. eapply has_quorum_mono; [|exact Hquorum].
+  intros x Hx. apply QuorumProofs.mem_In in Hx. apply active_ids_mem.
+  destruct Hx as [<-|Hx]; [left; split; [congruence|apply I12; left; reflexivity]|right; apply A, Hx].
+Qed.
+
+Lemma hb_msg_fields r ctx id :
+  m_to (hb_msg r ctx id) = id /\ m_type (hb_msg r ctx id) = MsgHeartbeat /\
+  m_from (hb_msg r ctx id) = r_id r /\ m_term (hb_msg r ctx id) = r_term r.
+Proof. unfold hb_msg. destruct ctx; cbn; repeat split. Qed.
+
+Lemma pget_pids m id : pget m id <> None -> In id (pids m).
+Proof.
+  intros H. destruct (pget m id) as [p|] eqn:E; [|congruence].
+  apply pget_In in E. unfold pids. apply in_map_iff. exists (id, p). auto.
+Qed.
+
+(* the heartbeat phase of a tick *)
+Lemma beat_phase_LInv r1 hr L2 b :
+  beat_phase r1 hr = Ok (L2, b) ->
+  r_state r1 = Leader -> r_term r1 = t -> r_id r1 = l -> r_heartbeat_timeout r1 = hb ->
+  (forall id, In id (l :: ids) -> get_pr r1 id <> None) ->
+  Forall (QL ids l t) (r_msgs r1) ->
+  (hb <= r_heartbeat_elapsed r1 /\ r_heartbeat_elapsed L2 = 0 /\
+   (forall id, In id ids -> hbq L2 id) /\ Forall (QL ids l t) (r_msgs L2) /\
+   L2 = r1 <| r_heartbeat_elapsed := 0 |> <| r_msgs := r_msgs L2 |>) \/
+  (r_heartbeat_elapsed r1 < hb /\ L2 = r1).
+Proof.
+  unfold beat_phase. intros H Hs Ht Hi Hh Hg HQ. rewrite Hh in H.
+  destruct (hb <=? r_heartbeat_elapsed r1) eqn:E.
+  - apply N.leb_le in E. left. rewrite bcast_heartbeat_eq in H. cbn [bind] in H.
+    injection H as HL2 Hb2. subst L2.
+    split; [exact E|]. split; [reflexivity|]. cbn [r_msgs set].
+    change (r_msgs (r1 <| r_heartbeat_elapsed := 0 |>)) with (r_msgs r1).
+    change (r_id (r1 <| r_heartbeat_elapsed := 0 |>)) with (r_id r1).
+    change (r_prs (r1 <| r_heartbeat_elapsed := 0 |>)) with (r_prs r1).
+    split; [|split].
+    + intros id Hid. eexists. split; [apply in_or_app; right; apply in_map; apply filter_In; split|].
+      * apply pget_pids. apply (Hg id). right. exact Hid.
+      * apply negb_true_iff, N.eqb_neq. rewrite Hi. intros ->. contradiction.
+      * destruct (hb_msg_fields (r1 <| r_heartbeat_elapsed := 0 |>)
+                    (ro_last_pending_request_ctx (r_read_only (r1 <| r_heartbeat_elapsed := 0 |>))) id)
+          as (A & B & _). split; assumption.
+    + apply Forall_app. split; [exact HQ|]. apply Forall_forall. intros x Hx.
+      apply in_map_iff in Hx. destruct Hx as (id & <- & _). intros _.
+      destruct (hb_msg_fields (r1 <| r_heartbeat_elapsed := 0 |>)
+                  (ro_last_pending_request_ctx (r_read_only (r1 <| r_heartbeat_elapsed := 0 |>))) id)
+        as (A & B & C & D). split; [exact (eq_trans C Hi)|]. split; [exact (eq_trans D Ht)|].
+      right. left. exact B.
+    + destruct r1; reflexivity.
+  - apply N.leb_gt in E. right. injection H as HL2 Hb2. subst L2. split; [exact E|reflexivity].
+Qed.
+
+(* the leader's tick after the exchange: the invariant is re-established, and either no
+   heartbeat was due (counter + 1, queue untouched) or one is queued for every majority
+   follower *)
+Lemma leader_tick_LInv L1 L2 b :
+  LInv true L1 -> tick L1 = Ok (L2, b) ->
+  LInv false L2 /\
+  ((r_heartbeat_elapsed L2 = r_heartbeat_elapsed L1 + 1 /\ r_heartbeat_elapsed L1 + 1 < hb /\
+    r_msgs L2 = r_msgs L1) \/
+   (r_heartbeat_elapsed L2 = 0 /\ forall id, In id ids -> hbq L2 id)).
+Proof.
+  intros HI H.
+  pose proof HI as (I1 & I2 & I3 & I4 & I5 & I6 & I7 & I8 & I9 & I10 & I11 & I12 & I13 & I14).
+  destruct (N.lt_ge_cases (r_election_elapsed L1 + 1) (r_election_timeout L1)) as [Hno|Hb].
+  - (* no boundary *)
+    rewrite (leader_heartbeats L1 I1 Hno) in H.
+    apply beat_phase_LInv in H; try assumption.
+    destruct H as [(E & H0 & Hq & HQ & ->)|(E & ->)].
+    + split; [|right; split; [reflexivity|exact Hq]].
+      unfold LInv. cbn. do 11 (split; [first [assumption|reflexivity|lia]|]). split; [exact I12|]. split; [exact HQ|].
+      left. intros id Hid. right. split; [reflexivity|]. apply Hq, Hid.
+    + cbn in E. split; [|left; cbn; repeat split; lia].
+      unfold LInv. cbn. do 11 (split; [first [assumption|reflexivity|lia]|]). split; [exact I12|]. split; [exact I13|].
+      destruct I14 as [A|A]; [left|right; lia].
+      intros id Hid. destruct (A id Hid) as [B|[B _]]; [left; exact B|discriminate].
+  - (* the check-quorum boundary *)
+    assert (Hall : forall id, In id ids -> act L1 id).
+    { destruct I14 as [A|A]; [|lia]. intros id Hid. destruct (A id Hid) as [B|[B _]]; [exact B|discriminate]. }
+    rewrite (checkquorum_stepdown L1 I1 Hb), I5, (all_act_quorum L1 HI Hall) in H.
+    assert (Hg : forall id, In id (l :: ids) -> get_pr (after_check L1 true) id <> None).
+    { intros id Hid. unfold get_pr, after_check. cbn. rewrite pget_clear_active.
+      specialize (I12 id Hid). unfold get_pr in I12. destruct (pget _ id); [discriminate|congruence]. }
+    apply beat_phase_LInv in H; try assumption.
+    destruct H as [(E & H0 & Hq & HQ & ->)|(E & ->)].
+    + split; [|right; split; [reflexivity|exact Hq]].
+      unfold LInv. cbn. do 11 (split; [first [assumption|reflexivity|lia]|]). split; [exact Hg|]. split; [exact HQ|].
+      left. intros id Hid. right. split; [reflexivity|]. apply Hq, Hid.
+    + cbn in E. split; [|left; cbn; repeat split; lia].
+      unfold LInv. cbn. do 11 (split; [first [assumption|reflexivity|lia]|]). split; [exact Hg|]. split; [exact I13|].
+      right. lia.
+Qed.
+
+End Inv.
